@@ -219,3 +219,39 @@ def build(T):
     t32('PldLiteralT1', '11111 000 U 0 (0) 1 1111 1111 imm12:12', family='C02')
     t32('PldRegisterT1', '11111 000 00 W 1 Rn:4 1111 000000 imm2:2 Rm:4', when=lambda f: f['Rn'] != 15, family='C02', unpred=lambda f, c: badreg(f['Rm']))
     t32('EnterxLeavexT1', '11110 0 111 01 1 (1111) 10 (0) 0 (1111) 000 J (1111)', family='C12')
+    # ---- operations of the hint, barrier, IT, UDF and ENTERX/LEAVEX rows
+    # hints and barriers have no architectural effect of their own: the implementation hands them to a mock hook
+    # (NotImplementedError) when the condition passes - nothing may have changed by then (Row.mock) - or, CLREX, to an empty hook
+    nop = lambda c, f: None
+    for cls_ in ('YieldA1', 'YieldT1', 'YieldT2', 'SevA1', 'SevT1', 'SevT2', 'DsbA1', 'DsbT1', 'IsbA1', 'IsbT1', 'PldImmediateA1', 'PldLiteralA1',
+                 'PldRegisterA1', 'PldImmediateT1', 'PldImmediateT2', 'PldLiteralT1', 'PldRegisterT1', 'BkptA1', 'BkptT1'):
+        for r_ in T.by_cls.get(cls_, []):
+            r_.op = nop
+            r_.mock = True
+    for cls_ in ('ClrexA1', 'ClrexT1'):
+        for r_ in T.by_cls.get(cls_, []):
+            r_.op = nop
+    for cls_ in ('BkptT1',):
+        for r_ in T.by_cls.get(cls_, []):
+            r_.unconditional = True             # BKPT executes whatever the IT condition says
+    # UDF: if ConditionPassed() then UNDEFINED
+    for cls_ in ('UdfA1', 'UdfT1', 'UdfT2'):
+        for r_ in T.by_cls.get(cls_, []):
+            r_.op = lambda c, f: c.UNDEFINED()
+
+    # IT: ITSTATE.IT<7:0> = firstcond:mask (not conditional; inside an IT block it is UNPREDICTABLE - the row says so)
+    def op_it(c, f):
+        c.cpsr = ST.cpsr_with(c.cpsr, it=((f['firstcond'] << 4) | f['mask']) & 0xFF)
+    for r_ in T.by_cls.get('ItT1', []):
+        r_.op = op_it
+        r_.unconditional = True
+
+    # ENTERX (J=1): UNDEFINED in Hyp mode, else ThumbEE state; LEAVEX: Thumb state.  Not conditional.
+    def op_enterx(c, f):
+        def enter(k):
+            k.UNDEFINED(k.mode() == ST.HYP)
+            k.cpsr = ST.cpsr_with(k.cpsr, j=1, t=1)
+        c.cases([(f['J'] == 1, enter), (True, lambda k: setattr(k, 'cpsr', ST.cpsr_with(k.cpsr, j=0, t=1)))])
+    for r_ in T.by_cls.get('EnterxLeavexT1', []):
+        r_.op = op_enterx
+        r_.unconditional = True
